@@ -10,6 +10,7 @@ import Driver.Qualify
 import Driver.Tx
 import Driver.Dev
 import Driver.Lint
+import Driver.Diff
 open Lean
 
 def dispatch (j : Json) : Json :=
@@ -29,6 +30,7 @@ def dispatch (j : Json) : Json :=
   | "tx.schema" => Driver.handleTxSchema j
   | "dev.run" => Driver.handleDevRun j
   | "lint.analyze" => Driver.handleLintAnalyze j
+  | "diff.schema" => Driver.handleDiffSchema j
   | "h1" => Json.mkObj [("h", Atlas.Base.h1 (Driver.unhex (Driver.str j "hex")))]
   | op => Json.mkObj [("err", s!"unknown-op:{op}")]
 
